@@ -331,3 +331,11 @@ def sample(r):
     return dict(kind=r['kind'], what=r.get('what'), plugins=r.get('plugins'), beh=r.get('beh'),
                 imports=[''.join(chr(c) for c in n) for n in r.get('imports', [])],
                 calls=len(r.get('calls', [])))
+
+
+def corrupt(r):
+    if r['kind'] in ('ud', 'src', 'callout'):
+        r['others'] = r['others'] + ['planted']
+    else:
+        r['is_object'] = False
+    return r
